@@ -133,6 +133,12 @@ where
             }));
         }
 
+        if !last && next_offset % FlexVec::<T, L>::ALIGN != 0 {
+            return Some(Err(Error {
+                kind: ErrorKind::BadAlign,
+                pos: self.pos,
+            }));
+        }
         if (!last && next_offset > data.bytes().len()) || payload_offset > data.bytes().len() {
             return Some(Err(Error {
                 kind: ErrorKind::InsufficientSize,
